@@ -63,10 +63,27 @@ func famC14(g *Gen, o *Out, n int, thorough bool) {
 				sb.WriteString(strings.Repeat("s", len(bs)+2))
 			}
 			choices := sb.String()
-			for _, kind := range []string{"bytes", "plain", "file", "osfile"} {
+			for _, kind := range []string{"bytes", "plain", "file", "osfile", "dr"} {
 				var src io.Reader
 				var count func() int
+				lineArch, lineVer, lineDp := arch, ver, dp
 				switch kind {
+				case "dr":
+					// the payload as handed out by Reader.DataReader: seekable, but for a CARv1 without
+					// SeekEnd (internal offset reader), for a CARv2 an io.SectionReader
+					rd, err := carv2.NewReader(bytes.NewReader(arch))
+					if err != nil {
+						continue
+					}
+					dr, err := rd.DataReader()
+					if err != nil {
+						continue
+					}
+					src = dr
+					if ver == 2 {
+						off, sz := leU64(arch[27:35]), leU64(arch[35:43])
+						lineArch, lineVer, lineDp = arch[off:off+sz], 1, 0
+					}
 				case "bytes":
 					s := &cntSeekByte{cntSeek{r: bytes.NewReader(arch)}}
 					src, count = s, func() int { return s.n }
@@ -89,6 +106,7 @@ func famC14(g *Gen, o *Out, n int, thorough bool) {
 					defer f.Close()
 					src, count = f, nil
 				}
+				os.WriteFile(tmpPath("c14-current-case.txt"), []byte(fmt.Sprintf("walk kind=%s ver=%d ch=%s arch=%x\n", kind, ver, choices, arch)), 0o644)
 				res := runChoices(src, ro, choices)
 				if count != nil {
 					res += fmt.Sprintf(" consumed=%d", count())
@@ -101,8 +119,11 @@ func famC14(g *Gen, o *Out, n int, thorough bool) {
 				if kind == "osfile" {
 					mk = "file"
 				}
+				if kind == "dr" { // CARv1: skipping falls back to reading; CARv2: a section reader seeks
+					mk = map[int]string{1: "plain", 2: "bytes"}[ver]
+				}
 				line := fmt.Sprintf("walk kind=%s cnt=%d %s roots=%s blocks=%s ver=%d dp=%d ch=%s arch=%s", mk, b2i(count != nil), ro, roots,
-					blocksStr(bs), ver, dp, choices, hex.EncodeToString(arch))
+					blocksStr(bs), lineVer, lineDp, choices, hex.EncodeToString(lineArch))
 				o.Line(line, res)
 				o.Count("walk/" + kind + fmt.Sprintf("/v%d", ver))
 			}
